@@ -70,7 +70,7 @@ THEOREMS = [
     "Pest.Calc.encodedTree_spec",
     "Pest.Calc.build_congr",
     "Pest.Calc.build_total",
-    # ---- JSON, stage 1 (tokens), both bundled grammars; stages 2-4 are OPEN (Props/C17.lean)
+    # ---- JSON, stage 1 (tokens), both bundled grammars
     "Pest.C17.render_length",
     "Pest.C17.examplesJson_number",
     "Pest.C17.examplesJson_string_rules",
@@ -84,6 +84,13 @@ THEOREMS = [
     "Pest.Json.ev_exString",
     "Pest.Json.ev_tNumber",
     "Pest.Json.ev_tString",
+    # ---- JSON, stages 2 and 3 (values, documents) for examples/json/json.pest
+    "Pest.C17.examplesJson_rules",
+    "Pest.C17.json_value_accepts",
+    "Pest.C17.json_accepts",
+    "Pest.Json.evSkip_ws",
+    "Pest.Json.val_ok",
+    "Pest.Json.parse_json_doc",
 ]
 
 MODES = ("interp", "opt", "gen", "optgen")
@@ -1520,8 +1527,11 @@ def run(out: Outcome) -> None:  # noqa: PLR0912, PLR0915
     max_units = 40 if thorough else 14
     n_corr_json = 1500 if thorough else 250
     spec_budget = 120000 if thorough else 12000
+    max_corr_exh = 10 ** 9
     if _driver_mode() == "scratch":          # interpreted entry point: an order of magnitude slower
-        spec_budget //= 3
+        spec_budget = 15000 if thorough else 4000
+        n_corr_calc_random = 5000 if thorough else 2000
+        max_corr_exh = 40000
     n_corr_calc_random = 20000 if thorough else 3000
 
     with EX.scratch_examples() as td:
@@ -1595,6 +1605,8 @@ def run(out: Outcome) -> None:  # noqa: PLR0912, PLR0915
         if lean_ok:
             docs.sort(key=lambda d: len(d[1]))
             rng.shuffle(corr_cases_rnd)
+            if len(corr_cases_exh) > max_corr_exh:
+                corr_cases_exh = rng.sample(corr_cases_exh, max_corr_exh)
             cc = corr_cases_exh + corr_cases_rnd[:n_corr_calc_random]
             text_of = dict(cc)
             m1, n1 = corr_calc(cc)
@@ -1670,7 +1682,7 @@ def run(out: Outcome) -> None:  # noqa: PLR0912, PLR0915
             f"arbitrary spacing incl. none, a quarter of them through the pairs of the interp/opt/gen/optgen parsers instead "
             f"of the public entry points): the three implementations' ASTs and values against the reference evaluator "
             f"written from the documented table.  Correspondence: {n_corr} requests to the Lean models (K: ASTs of "
-            f"precClimb/pratt/encoded/reference on every exhaustive list and {min(len(corr_cases_rnd), n_corr_calc_random)} "
+            f"precClimb/pratt/encoded/reference on {len(corr_cases_exh)} of the exhaustive lists and {min(len(corr_cases_rnd), n_corr_calc_random)} "
             f"random ones; J: render, mirror vs the real trees, and the L0 specification of pest on the regenerated grammar "
             f"terms, whole documents and every proper prefix, within a budget of {spec_budget} characters).  "
             f"Distinct = distinct texts/token lists, counted."
@@ -1683,8 +1695,10 @@ def run(out: Outcome) -> None:  # noqa: PLR0912, PLR0915
         "direct_failures": len(calc_problems) + len(json_problems) + len(neg_problems),
         "lean_driver": _driver_mode() if lean_ok else "unavailable",
         "json_theorems_proved": ["json_number_accepts", "json_string_accepts", "json_number_accepts_tests",
-                                 "json_string_accepts_tests"],
-        "json_theorems_open": ["json_value_accepts", "json_accepts", "json_rejects_prefix"],
+                                 "json_string_accepts_tests", "json_value_accepts (examples/json/json.pest)",
+                                 "json_accepts (examples/json/json.pest)"],
+        "json_theorems_open": ["json_accepts_tests (values and documents of tests/grammars/json.pest)",
+                               "json_rejects_prefix (both grammars)"],
         "phases_s": {"export": round(t_export, 1), "build_and_audit": round(t_proof, 1), "search": round(t_search, 1),
                      "correspondence_and_verdict": round(time.time() - t0 - t_export - t_proof - t_search, 1)},
     }
@@ -1707,11 +1721,13 @@ def run(out: Outcome) -> None:  # noqa: PLR0912, PLR0915
         "accept raw control characters U+0000–U+001F inside strings, examples/json/json.pest accepts a fraction without "
         "digits (`1.`), tests/grammars/json.pest accepts a scalar at top level (its `json` rule is SOI ~ value ~ EOI); every "
         "other text that is not RFC 8259 must be rejected in all modes",
-        "JSON: proved in Lean for both regenerated grammars (all inputs, all states, unbounded): every RFC 8259 number "
-        "and every RFC 8259 string, in any spelling, is exactly one `number` / `string` token with the expected pair(s) "
-        "(stage 1).  Values, documents and prefix rejection (json_value_accepts, json_accepts, json_rejects_prefix) are "
-        "stated but OPEN (Props/C17.lean); that part rests on the failing-input search and on the executable L0 "
-        "specification run on the regenerated grammar terms",
+        "JSON: proved in Lean (all inputs, unbounded), against the L0 specification of pest run on the regenerated grammar "
+        "terms: for both grammars every RFC 8259 number and string, in any spelling, is exactly one `number` / `string` "
+        "token with the expected pair(s) (stage 1); for examples/json/json.pest every value and every document whose "
+        "top level is a container is accepted with exactly the tree `mirror` (json_value_accepts, json_accepts).  OPEN: the "
+        "same for values/documents of tests/grammars/json.pest, and prefix rejection for both (json_rejects_prefix); "
+        "these, and the step from the specification to the four execution modes of the implementation (properties "
+        "C01-C04), rest on the failing-input search and on the executable specification (`J accepts`, `J prefixes`)",
         "Python's recursion limit is not modelled (documents nest at most 5–6 deep, expressions at most a few dozen)",
     ]
 
